@@ -118,7 +118,15 @@ def copyFromFieldWith (rec : FromRec) (overrides : List (String × String)) (inf
             | .ok o => .ok { st with obj := o }
             | .panic w => .panic w
             | .stuck w => .stuck w
-          else .ok st
+          else
+            -- else if obj.<Parent> != nil { obj.F = t }
+            match st.obj.field? info.parentIsOptionalEmbedFieldName with
+            | some (.ptr (some _)) =>
+              match writeField info st.obj t with
+              | .ok o => .ok { st with obj := o }
+              | .panic w => .panic w
+              | .stuck w => .stuck w
+            | _ => .ok st
         else .ok { st with obj := st.obj.setField info.name t }
     | .object, .obj unk null attrs _ =>
       let isEmpty := (isEmptyMsg msg)
@@ -158,8 +166,8 @@ def copyFromFieldWith (rec : FromRec) (overrides : List (String × String)) (inf
     | .primitiveList, .list unk null elems _ | .objectList, .list unk null elems _ =>
       let vf := info
       let n := (elems.getD []).length
-      -- obj.F = make(GoType, len(v.Elems))
-      match writeField info st.obj (.slice (some (List.replicate n (zeroElem vf)))) with
+      -- known: obj.F = make(GoType, len(v.Elems)); null / unknown: obj.F = make(GoType, 0)
+      match writeField info st.obj (.slice (some (List.replicate (if known unk null then n else 0) (zeroElem vf)))) with
       | .panic w => .panic w
       | .stuck w => .stuck w
       | .ok o =>
